@@ -76,8 +76,8 @@ Print Assumptions c18_summary_members.
 
 (** Known finding K-C18-1: two derived tables with different text but the same alias
     (here in two UNION branches) print alike, so node ids are not unique. *)
-Definition sq1 : dataset := {| dk := KSubq; deq := "select x from s.a"; dstr := "t"; dschema := "" |}.
-Definition sq2 : dataset := {| dk := KSubq; deq := "select y from s.b"; dstr := "t"; dschema := "" |}.
+Definition sq1 : dataset := {| dk := KSubq; deq := "select x from s.a"; dstr := "t"; dschema := ""; draw := ""; dalias := ""; dquery := None |}.
+Definition sq2 : dataset := {| dk := KSubq; deq := "select y from s.b"; dstr := "t"; dschema := ""; draw := ""; dalias := ""; dquery := None |}.
 Definition dupg : graph :=
   {| gnodes := [(NCol {| craw := "x"; cparents := [sq1] |}, []); (NCol {| craw := "y"; cparents := [sq2] |}, [])];
      gedges := [] |}.
